@@ -31,7 +31,7 @@ def _effects(res):
 
 
 def mon_c01(script, res):
-    n = len(script['procs'])
+    n = len(script['procs']) + sum(p.get('procs', 1) for p in script.get('pools', []))
     cur = [0] * n
     prev = None
     for e in _effects(res):
@@ -612,7 +612,16 @@ def hostile_script(rng, logdir):
                                      bytes(rng.randrange(256) for _ in range(rng.randrange(0, 40))), b'x' * 3000,
                                      (BEGIN + b'a' + END) * rng.choice([1, 5, 40])]))
         return list(b''.join(parts))
+    if rng.random() < 0.6:
+        s['pools'] = [{'events': rng.choice([['EVENT'], ['PROCESS_COMMUNICATION', 'PROCESS_LOG'], ['PROCESS_STATE', 'TICK_5'],
+                                             ['PROCESS_COMMUNICATION_STDOUT', 'PROCESS_LOG_STDERR', 'SUPERVISOR_STATE_CHANGE']]),
+                       'buffer': rng.choice([1, 3, 10]), 'procs': rng.choice([1, 2])}]
     for op in s['ops']:
+        if 'pools' in s and rng.random() < 0.15:
+            op['listener_reply'] = list(rng.choice([b'RESULT 4\nFAILREADY\n', b'garbage', b'RESULT x\n', b'RESULT 2\nOK', b'READY\n',
+                                                    b'RESULT 0\nREADY\n', b'\xff\xfe', b'RESULT 99999999\n']))
+        if 'pools' in s and rng.random() < 0.1:
+            op['listener_deaf'] = 1
         if rng.random() < 0.5:
             op['outputs'] = [[rng.randrange(4), rng.choice([1, 2]), hostile_bytes()] for _ in range(rng.randrange(1, 3))]
         if rng.random() < 0.3:
